@@ -37,6 +37,12 @@ def decodeOut : Sexp → Option Out
   | .list [.atom "other"] => some .other
   | _ => none
 
+/-- an operand-parser error is predicted to make the whole program fail only when the spelling consists
+of numeric and operator tokens (an identifier would start a gate / memory reference / qubit variable) -/
+def errIfNumeric (ts : List Token) : Option Out :=
+  if !ts.isEmpty && ts.all (fun t => match t with | .integer _ | .float _ | .operator _ => true | _ => false)
+  then some .err else none
+
 /-- The model's prediction for a spelling placed in an operand position of the given kind:
 `none` = not predicted (the spelling lexes to more than one operand's worth of tokens, so what
 happens depends on the rest of the grammar, which this model does not cover). -/
@@ -52,22 +58,22 @@ def predict (kind : String) (spelling : List Char) : Option Out :=
       | .ok (.literalInteger z) [] => some (.int z)
       | .ok (.literalReal b) [] => some (.real b)
       | .ok _ _ => none
-      | .err => some .err
+      | .err => errIfNumeric ts
     | "imm" =>
       match parseImmediateValue ts with
       | .ok z [] => some (.num false z.re z.im)
       | .ok _ _ => none
-      | .err => some .err
+      | .err => errIfNumeric ts
     | "expr" =>
       match parseSignedNumber ts with
       | .ok (neg, z) [] => some (.num neg z.re z.im)
       | .ok _ _ => none
-      | .err => some .err
+      | .err => errIfNumeric ts
     | "nat" =>
       match parseU64 ts with
       | .ok n [] => some (.nat n)
       | .ok _ _ => none
-      | .err => some .err
+      | .err => errIfNumeric ts
     | _ => none
 
 /-- **Bool specification** evaluated on the implementation's output: the operand equals the
